@@ -9,8 +9,9 @@ Sum-rule cases (odd idx):
 Chern cases (even idx): gapped 2D models - Haldane_ptb / Haldane_tbm over the phase diagram (incl. trivial phase)
   and random 2-3-band models (randomly rotated/perturbed/embedded lattice Chern insulators with winding 0,1,2 in a
   random planar lattice, minimum gap >= 0.3 found by scanning 96^2 k-points).  AHC with E_F in the gap on 48^2 and
-  96^2 grids; C = sigma_xy * c / (e^2/h) with SI constants written out in the harness (AHC is documented in S/m):
-  |C - round(C)| < 1e-3 on both grids and not growing; round(C) == -Chern_FHS, where Chern_FHS is the
+  96^2 grids (192^2 when still converging); C = sigma_xy * c / (e^2/h) with SI constants written out in the harness
+  (AHC is documented in S/m): convergence-based verdict - |C - round(C)| < 1e-3 on the finest grid, not growing, same
+  integer on the last two grids (under-resolved models are replaced and counted); round(C) == -Chern_FHS, where Chern_FHS is the
   Fukui-Hatsugai-Suzuki lattice Chern number (convention Omega = curl A, A = i<u|grad u>) computed by the harness
   from the model's own real-space Hamiltonian.  The documented relation  O = -e^2/hbar int[dk] Omega f  fixes the
   sign:  sigma_xy c/(e^2/h) = -Chern;  setup() verifies it once on Haldane with known phase (phi=pi/2 and -pi/2),
@@ -162,59 +163,88 @@ def setup(ctx):
 
 
 # ----------------------------------------------------------------------------------------------
-def chern_case(ctx, rng, idx, state):
-    for attempt in range(12):  # replace models without a sufficient gap (coarse scan; the 96^2 scan below decides)
-        if idx % 4 == 0:
-            system, desc = haldane_system(rng)
-        else:
-            system, desc = chern_insulator_system(rng)
-        Ec = np.linalg.eigvalsh(hk_periodic(system, kspace.grid_points((24, 24, 1))))
-        if (Ec[:, 1:].min(axis=0) - Ec[:, :-1].max(axis=0)).max() >= MINGAP + 0.05:
-            break
-        ctx.count("models_replaced_small_gap")
+def make_chern_model(ctx, rng, idx):
+    """a gapped model, the band gap to fill and the harness Chern number; None if the candidate is unusable"""
+    if idx % 4 == 0:
+        system, desc = haldane_system(rng)
+    else:
+        system, desc = chern_insulator_system(rng)
     nw = system.num_wann
     L = system.real_lattice
     if abs(L[0, 2]) + abs(L[1, 2]) + abs(L[2, 0]) + abs(L[2, 1]) > 1e-12:
-        raise harness.Skip("lattice not planar")
-    _, E = fhs_chern(system, 1, 96)
+        return None
+    Ec = np.linalg.eigvalsh(hk_periodic(system, kspace.grid_points((24, 24, 1))))
+    if (Ec[:, 1:].min(axis=0) - Ec[:, :-1].max(axis=0)).max() < MINGAP + 0.05:
+        ctx.count("models_replaced_small_gap")
+        return None
+    # the gap is measured on the finest grid that can be used below (192^2)
+    E = np.linalg.eigvalsh(hk_periodic(system, kspace.grid_points((192, 192, 1))))
     gaps = E[:, 1:].min(axis=0) - E[:, :-1].max(axis=0)
     ok = [i for i in range(nw - 1) if gaps[i] >= MINGAP]
     if not ok:
-        raise harness.Skip("no gap >= 0.3")
+        ctx.count("models_replaced_small_gap")
+        return None
     ib = int(ok[rng.integers(len(ok))])
     nocc = ib + 1
     Ef = 0.5 * (E[:, ib].max() + E[:, ib + 1].min())
     C96, _ = fhs_chern(system, nocc, 96)
     C48, _ = fhs_chern(system, nocc, 48)
     if abs(C96 - round(C96)) > 1e-6 or round(C96) != round(C48):
-        raise harness.Skip("harness Chern number not converged")
-    chern = int(round(C96))
-    wit = dict(desc, nocc=nocc, gap=float(gaps[ib]), Ef=float(Ef), chern_FHS=chern, lattice=L)
-    vals = {}
-    for N in (48, 96):
-        vals[N], sigma = chern_from_ahc(system, Ef, N)
-    dev = {N: abs(vals[N] - round(vals[N])) for N in vals}
-    wit.update(C_ahc_48=vals[48], C_ahc_96=vals[96])
-    for N in (48, 96):
+        ctx.count("models_replaced_harness_chern_not_converged")
+        return None
+    return system, desc, nocc, float(gaps[ib]), float(Ef), int(round(C96))
+
+
+def chern_case(ctx, rng, idx, state):
+    """convergence-based verdict (DESIGN 3.4): grids N, 2N (, 4N).  Quantised = |C-round(C)| < 1e-3 on the finest grid
+    used; a model whose error is >= 1e-3 but still shrinking by >= 2x per doubling is under-resolved -> on 192^2 it must
+    be < 1e-3, otherwise the case is inconclusive and replaced.  Refuted: error >= 1e-3 that does not shrink, an error
+    that grows under refinement, different integers on the last two grids, or integer != -Chern(FHS)."""
+    for attempt in range(40):
+        model = make_chern_model(ctx, rng, idx)
+        if model is None:
+            continue
+        system, desc, nocc, gap, Ef, chern = model
+        nw = system.num_wann
+        wit = dict(desc, nocc=nocc, gap=gap, Ef=Ef, chern_FHS=chern, lattice=system.real_lattice)
+        vals = {N: chern_from_ahc(system, Ef, N)[0] for N in (48, 96)}
+        dev = {N: abs(vals[N] - round(vals[N])) for N in vals}
+        grids = [48, 96]
+        if dev[96] >= 1e-3 and dev[96] <= 0.5 * dev[48]:
+            vals[192] = chern_from_ahc(system, Ef, 192)[0]
+            dev[192] = abs(vals[192] - round(vals[192]))
+            grids.append(192)
+            ctx.count("chern_third_grid_192")
+        coarse, fine = grids[-2], grids[-1]
+        wit.update({f"C_ahc_{N}": vals[N] for N in grids})
+        if dev[fine] >= 1e-3 and dev[fine] <= 0.5 * dev[coarse]:
+            ctx.count("chern_inconclusive_not_converged_replaced")
+            continue
         ctx.ev()
-        ctx.dev("AHC_gap_not_quantised", dev[N] / 1e-3)
-        if not dev[N] < 1e-3:
-            ctx.violation("AHC_gap_not_quantised", f"sigma_xy*c/(e^2/h) = {vals[N]!r} on {N}^2 is not an integer within 1e-3", wit)
-    ctx.ev()
-    if dev[96] > max(1.5 * dev[48], 1e-8):
-        ctx.violation("AHC_quantisation_error_grows_with_grid",
-                      f"|C-round(C)| = {dev[48]:.3e} on 48^2 but {dev[96]:.3e} on 96^2", wit)
-    ctx.ev()
-    if int(round(vals[96])) != -chern:
-        ctx.violation("AHC_chern!=-FHS_chern", f"sigma_xy*c/(e^2/h) = {vals[96]:.6f} but the lattice Chern number of the "
-                      f"occupied bands is {chern} (documented: O = -e^2/hbar int[dk] Omega f)", wit)
-    ctx.count("chern_models")
-    ctx.count("chern_nonzero" if chern != 0 else "chern_trivial")
-    ctx.count(("haldane_" if desc["family"].startswith("Haldane") else "random_") + ("topological" if chern else "trivial"))
-    if abs(chern) >= 2:
-        ctx.count("chern_abs_ge_2")
-    ctx.nontrivial((desc["family"], nw, nocc, chern, round(float(gaps[ib]), 3)))
-    ctx.sample(wit)
+        ctx.dev("AHC_gap_not_quantised", dev[fine] / 1e-3)
+        if dev[fine] >= 1e-3:
+            ctx.violation("AHC_gap_not_quantised", f"sigma_xy*c/(e^2/h) = {vals[coarse]!r} on {coarse}^2 and {vals[fine]!r} on "
+                          f"{fine}^2: not an integer within 1e-3 and not converging to one", wit)
+        ctx.ev()
+        if dev[fine] > max(1.5 * dev[coarse], 1e-8):
+            ctx.violation("AHC_quantisation_error_grows_with_grid",
+                          f"|C-round(C)| = {dev[coarse]:.3e} on {coarse}^2 but {dev[fine]:.3e} on {fine}^2", wit)
+        ctx.ev()
+        if int(round(vals[fine])) != int(round(vals[coarse])):
+            ctx.violation("AHC_chern_differs_between_grids", f"{vals[coarse]!r} on {coarse}^2 vs {vals[fine]!r} on {fine}^2", wit)
+        ctx.ev()
+        if int(round(vals[fine])) != -chern:
+            ctx.violation("AHC_chern!=-FHS_chern", f"sigma_xy*c/(e^2/h) = {vals[fine]:.6f} but the lattice Chern number of the "
+                          f"occupied bands is {chern} (documented: O = -e^2/hbar int[dk] Omega f)", wit)
+        ctx.count("chern_models")
+        ctx.count("chern_nonzero" if chern != 0 else "chern_trivial")
+        ctx.count(("haldane_" if desc["family"].startswith("Haldane") else "random_") + ("topological" if chern else "trivial"))
+        if abs(chern) >= 2:
+            ctx.count("chern_abs_ge_2")
+        ctx.nontrivial((desc["family"], nw, nocc, chern, round(gap, 3)))
+        ctx.sample(wit)
+        return
+    raise harness.Skip("no usable gapped model found in 40 attempts")
 
 
 def sumrule_case(ctx, rng, idx, state):
@@ -319,7 +349,7 @@ def case(ctx, rng, idx, state):
 if __name__ == "__main__":
     harness.main(
         PROP, "exploration", case, setup_fn=setup,
-        tiers=dict(quick=dict(cases=32, shards=8, time=400), thorough=dict(cases=480, shards=16, time=1100)),
+        tiers=dict(quick=dict(cases=64, shards=8, time=400), thorough=dict(cases=1600, shards=16, time=1100)),
         rule="even cases: gapped 2D models (Haldane_ptb/tbm with random delta/hop1/hop2/phi in and outside the topological "
              "lobe; randomly rotated, perturbed and embedded 2-3-band lattice Chern insulators with winding 0,+-1,+-2 on random "
              "planar lattices), min gap >= 0.3 on a 96^2 scan, E_F mid-gap, grids 48^2 and 96^2; odd cases: random Hermitian models "
